@@ -3,9 +3,9 @@ CONSTANTS
   Kinds = {"col"}
   Ids = {100}
   AKeys = {"a"}
-  Vals = {"i:1"}
-  Depth = 5
-  NWrites = 2
+  Vals = {"i:1","i:2"}
+  Depth = 7
+  NWrites = 3
   MaxQueries = 0
   MaxLate = 0
   InitModes = {"empty"}
